@@ -69,6 +69,11 @@ DIRECTED = [
     # graceful Close waits; a following ForceClose must still cancel the pending calls
     [{"a": "Start", "i": 1}, {"a": "Start", "i": 2}, {"a": "FirstSend", "i": 1, "ok": "ok"}, {"a": "FirstSend", "i": 2, "ok": "ok"},
      {"a": "NotifyAck", "i": 1}, {"a": "RetrySel", "i": 1, "br": "ack"}, {"a": "GC"}, {"a": "Start", "i": 3}, {"a": "FC"}],
+    # ack arrives while a re-send is stuck in the transport, the engine is force-closed, then the write fails:
+    # the call was acknowledged, so it must not be reported as safe to retry
+    [{"a": "Start", "i": 1}, {"a": "FirstSend", "i": 1, "ok": "ok"}, {"a": "Tick"}, {"a": "RetrySel", "i": 1, "br": "timer", "ok": "block"},
+     {"a": "NotifyAck", "i": 1}, {"a": "FC"}, {"a": "SendBreak", "i": 1}],
+    [{"a": "Start", "i": 1}, {"a": "FirstSend", "i": 1, "ok": "block"}, {"a": "NotifyAck", "i": 1}, {"a": "FC"}, {"a": "SendBreak", "i": 1}],
     # a retransmission the transport refuses ends the call (trace 1 mod 2: timers run out afterwards)
     [{"a": "Start", "i": 1}, {"a": "FirstSend", "i": 1, "ok": "ok"}, {"a": "Tick"}, {"a": "RetrySel", "i": 1, "br": "timer", "ok": "fail"}],
     [{"a": "Start", "i": 1}, {"a": "Start", "i": 2}, {"a": "FirstSend", "i": 1, "ok": "ok"}, {"a": "FirstSend", "i": 2, "ok": "ok"}, {"a": "Tick"},
@@ -96,7 +101,7 @@ def run(pid, replay=None):
     else:
         # (1) design half: exhaustive model of the engine
         cfg = "MC_thorough.cfg" if thorough else "MC_fixed.cfg"
-        mc = vlib.run_tlc(pid, "mc", SPEC, "Rpc", cfg, timeout=2400)
+        mc = vlib.run_tlc(pid, "mc", SPEC, "Rpc", cfg, timeout=5400, cache=True)
         if not os.environ.get("VERIF_DEV_SKIP_MC"):
             vlib.tlc_must_pass(mc, "Rpc " + cfg)
         log("Rpc %s: %d generated / %d distinct states, %.1fs" % (cfg, mc.generated, mc.distinct, mc.wall))
